@@ -7,7 +7,7 @@ func init() {
 
 // C16: containers are ordered and total.
 func checkC16(c *Check) {
-	c.rule = "MC_Cont: arrays and strings of length 0-4 (mixed types, nested containers, multi-byte text) x 16 indexes (-2..255, non-integers); ranges a..b for a,b in -2..4; hashes over 9 keys incl. 1 / 1.0 / \"1\" / 1.5 / \"1.5\" x every lookup key and 4 unusable keys; len, type, keys, printed form, membership of 13 candidate elements; foreach with and without index, and nested over the same container; each as literal, variable and field, each run twice on one evaluator; plus the in / .. / [] cells of MC_Expr; non-trivial = expectation is a value or ERR; for hashes with coinciding printed keys the order is unconstrained but must repeat"
+	c.rule = "MC_Cont: arrays and strings of length 0-4 (mixed types, nested containers, multi-byte text) x 16 indexes (-2..255, non-integers); ranges a..b for a,b in -2..4; hashes over 9 keys incl. 1 / 1.0 / \"1\" / 1.5 / \"1.5\" x every lookup key and 4 unusable keys; len, type, keys, printed form, membership of 13 candidate elements; foreach with and without index, and nested over the same container; an array after sort(), reverse() and an iteration derived something from it; each as literal, variable and field, each run twice on one evaluator; plus the in / .. / [] cells of MC_Expr; non-trivial = expectation is a value or ERR; for hashes with coinciding printed keys the order is unconstrained but must repeat"
 	c.assumptions = []string{"iteration/print order among hash keys with equal printed form is unspecified but must be the same every time it is observed"}
 	runRows(c, "MC_Cont", stdCfg(c.Tier, "IndexTotal", "VisitsAll", "Repeatable"), func(row *Row) {
 		replayProgRow(c, row, progOpts{})
